@@ -25,6 +25,7 @@ func init() {
 			{ID: "C13.3", Desc: "no stale-if-error against must-revalidate / no-cache", Run: ruleC13_3, MinSites: 3},
 			{ID: "C13.4", Desc: "strict window comparison", Run: ruleC13_4, MinSites: 1},
 			{ID: "C13.5", Desc: "stale-if-error return is marked STALE with Age", Run: ruleC13_5, MinSites: 1},
+			{ID: "C13.7", Desc: "the window sum (lifetime + stale-if-error) and the age sum saturate", Run: func(c *Ctx) { ruleDurationSums(c, "C13.7") }, MinSites: 2},
 			{ID: "C13.6", Desc: "otherwise the failure is returned", Run: ruleC13_6, MinSites: 2},
 		},
 	})
@@ -200,74 +201,89 @@ func ruleC13_4(c *Ctx) {
 		return
 	}
 	fn := c.A.F("siePolicy")
-	// find conditions whose permitting edge leads to `return true`
+	// the window comparison, in the policy or a helper/closure it delegates to: either a branch whose permitting edge
+	// leads to `return true`, or a comparison returned directly as the permit
 	n := 0
-	for _, b := range fn.Blocks {
-		if len(b.Instrs) == 0 {
-			continue
-		}
-		iff, ok := b.Instrs[len(b.Instrs)-1].(*ssa.If)
-		if !ok {
-			continue
-		}
-		cmp, ok := iff.Cond.(*ssa.BinOp)
-		if !ok {
-			continue
-		}
-		switch cmp.Op {
-		case token.LSS, token.LEQ, token.GTR, token.GEQ:
-		default:
-			continue
-		}
-		durDep := func(v ssa.Value) bool {
-			return c.An.dependsOnCall(v, func(cc *ssa.Call) bool {
-				if c.An.isAccessorCallAny(cc, "stale-if-error") {
-					return true
-				}
-				// the interface call through which the policy reads the directive of each source
-				return c.An.invokeResolvesTo(cc, func(f *ssa.Function) bool {
-					di, ok := c.A.DirAcc[f]
-					return ok && di.Directive == "stale-if-error"
-				})
+	durDep := func(v ssa.Value) bool {
+		return c.An.dependsOnCall(v, func(cc *ssa.Call) bool {
+			if c.An.isAccessorCallAny(cc, "stale-if-error") {
+				return true
+			}
+			// the interface call through which the policy reads the directive of each source
+			return c.An.invokeResolvesTo(cc, func(f *ssa.Function) bool {
+				di, ok := c.A.DirAcc[f]
+				return ok && di.Directive == "stale-if-error"
 			})
-		}
-		ld, rd := durDep(cmp.X), durDep(cmp.Y)
-		if ld == rd {
+		})
+	}
+	for _, g := range c.reachableFrom(fn) {
+		if c.A.roleOf[g] != "" && g != fn {
 			continue
 		}
-		n++
-		// which successor returns true?
-		retTrue := func(blk *ssa.BasicBlock) bool {
-			if len(blk.Instrs) == 0 {
-				return false
+		instrsOf(g, func(in ssa.Instruction) {
+			cmp, ok := in.(*ssa.BinOp)
+			if !ok {
+				return
 			}
-			r, ok := blk.Instrs[len(blk.Instrs)-1].(*ssa.Return)
-			if !ok || len(r.Results) != 1 {
-				return false
+			switch cmp.Op {
+			case token.LSS, token.LEQ, token.GTR, token.GEQ:
+			default:
+				return
 			}
-			bv, ok := constBool(r.Results[0])
-			return ok && bv
-		}
-		op := cmp.Op
-		switch {
-		case retTrue(b.Succs[0]):
-		case retTrue(b.Succs[1]):
-			op = negTok(op)
-		default:
-			c.Undecided("C13.4", "sie-window", "the window comparison decides the permit directly", c.P.InstrPos(cmp)+": neither branch returns true directly")
-			continue
-		}
-		// normalise to: age OP bound
-		if ld {
-			op = swapTok(op)
-		}
-		where := c.P.InstrPos(cmp) + " `" + cmp.String() + "`"
-		desc := "stale-if-error permits only while staleness is strictly below the window (age < lifetime + N)"
-		if op == token.LSS {
-			c.Pass("C13.4", "sie-window", desc, where)
-		} else {
-			c.Fail("C13.4", "sie-window", desc, where+fmt.Sprintf(": permit edge is `age %s lifetime+N`; at staleness exactly N the stored response is still served", op), where)
-		}
+			ld, rd := durDep(cmp.X), durDep(cmp.Y)
+			if ld == rd {
+				return
+			}
+			n++
+			op := cmp.Op
+			decided := false
+			if refs := cmp.Referrers(); refs != nil {
+				for _, r := range *refs {
+					switch u := r.(type) {
+					case *ssa.Return:
+						// `return age < lifetime+N`: true is the permit
+						if len(u.Results) == 1 && u.Results[0] == ssa.Value(cmp) {
+							decided = true
+						}
+					case *ssa.If:
+						b := u.Block()
+						retTrue := func(blk *ssa.BasicBlock) bool {
+							if len(blk.Instrs) == 0 {
+								return false
+							}
+							r, ok := blk.Instrs[len(blk.Instrs)-1].(*ssa.Return)
+							if !ok || len(r.Results) != 1 {
+								return false
+							}
+							bv, ok := constBool(r.Results[0])
+							return ok && bv
+						}
+						switch {
+						case retTrue(b.Succs[0]):
+							decided = true
+						case retTrue(b.Succs[1]):
+							op = negTok(op)
+							decided = true
+						}
+					}
+				}
+			}
+			if !decided {
+				c.Undecided("C13.4", "sie-window", "the window comparison decides the permit directly", c.P.InstrPos(cmp)+": neither returned as the permit nor branching to `return true`")
+				return
+			}
+			// normalise to: age OP bound
+			if ld {
+				op = swapTok(op)
+			}
+			where := c.P.InstrPos(cmp) + " `" + cmp.String() + "`"
+			desc := "stale-if-error permits only while staleness is strictly below the window (age < lifetime + N)"
+			if op == token.LSS {
+				c.Pass("C13.4", "sie-window", desc, where)
+			} else {
+				c.Fail("C13.4", "sie-window", desc, where+fmt.Sprintf(": permit edge is `age %s lifetime+N`; at staleness exactly N the stored response is still served", op), where)
+			}
+		})
 	}
 	if n == 0 {
 		c.Undecided("C13.4", "sie-window", "a window comparison exists", "no comparison against a stale-if-error duration in "+c.P.ShortName(fn))
